@@ -1277,6 +1277,11 @@ func (w *world) opAdv(op *Op) {
 			w.labels["advance-to-detector-boundary"]++
 		}
 	}
+	if len(w.pend) > 0 && d > 10*time.Second {
+		// a blocked round-robin pick polls every 100 ms of virtual time: long jumps would only burn real CPU
+		d = 10 * time.Second
+		w.labels["advance-capped-while-bind-blocked"]++
+	}
 	if d > 0 {
 		if time.Since(bubbleEpoch())+d > 250*365*24*time.Hour {
 			return // keep inside the representable range of time.Duration arithmetic
